@@ -1,0 +1,24 @@
+//go:build verif
+
+package util
+
+import gotime "time"
+
+// VerifTick, if set, is called at the beginning of every iteration of
+// WithRepeat with the iteration counter. Returning true ends the loop.
+// While it is set, the ticker interval is reduced to a minimum.
+var VerifTick func(counter int64) bool
+
+func verifInterval(interval gotime.Duration) gotime.Duration {
+	if VerifTick != nil {
+		return gotime.Microsecond
+	}
+	return interval
+}
+
+func verifTick(counter int64) bool {
+	if VerifTick != nil {
+		return VerifTick(counter)
+	}
+	return false
+}
